@@ -578,15 +578,62 @@ mod n {
         v
     }
 
+    /// Whole-file rewrites of written values (the typed oracle reads the blocks of the rewritten text)
+    fn rewrite_values(text: &str, rewrite: usize) -> String {
+        if rewrite == 0 {
+            return text.to_string();
+        }
+        let mut out = String::with_capacity(text.len());
+        for line in text.split_inclusive('\n') {
+            let (body, eol) = match line.strip_suffix("\r\n") {
+                Some(b) => (b, "\r\n"),
+                None => match line.strip_suffix('\n') {
+                    Some(b) => (b, "\n"),
+                    None => (line, ""),
+                },
+            };
+            let mut parts = body.splitn(2, '=');
+            let (key, val) = (parts.next().unwrap_or("").trim(), parts.next().map(str::trim));
+            let indent = &body[..body.len() - body.trim_start().len()];
+            let new: Option<Option<String>> = match (rewrite, key, val) {
+                (1, "perteneceALaEnvolventeTermica", Some(v)) => Some(Some(if v.trim_matches('"') == "SI" { "NO".to_string() } else { "SI".to_string() })),
+                (2, "TYPE", Some(v)) => match v.trim_matches('"') {
+                    "CONDITIONED" => Some(Some("UNHABITED".to_string())),
+                    "UNHABITED" => Some(Some("UNCONDITIONED".to_string())),
+                    "UNCONDITIONED" => Some(Some("CONDITIONED".to_string())),
+                    _ => None,
+                },
+                (3, "X" | "Y" | "Z" | "WIDTH" | "HEIGHT" | "SETBACK", Some(v)) => v.parse::<f32>().ok().map(|x| Some(format!("{}", x + 0.125))),
+                (4, "CONDUCTIVITY" | "DENSITY" | "SPECIFIC-HEAT" | "RESISTANCE" | "GLASS-CONDUCTANCE" | "SHADING-COEF" | "FRAME-CONDUCT" | "FRAME-ABS" | "FRAME-WIDTH" | "PORCENTAGE" | "INF-COEF" | "TTL" | "FRSI" | "LONG-TOTAL", Some(v)) => v.parse::<f32>().ok().map(|x| Some(format!("{}", x * 0.5))),
+                (5, "SPECIFIC-HEAT" | "perteneceALaEnvolventeTermica" | "TransmisividadJulio" | "VAPOUR-DIFFUSIVITY-FACTOR" | "THICKNESS", Some(v)) if !v.starts_with('(') => Some(None),
+                _ => None,
+            };
+            match new {
+                None => out.push_str(line),
+                Some(None) => {}
+                Some(Some(v)) => {
+                    out.push_str(indent);
+                    out.push_str(key);
+                    out.push_str(" = ");
+                    out.push_str(&v);
+                    out.push_str(eol);
+                }
+            }
+        }
+        out
+    }
+
     #[test]
     fn n_c18_typed() {
         let mut files = vec![];
         files_with_ext(&tests_root(), "ctehexml", &mut files);
         files_with_ext(&tests_root().join("liderdata"), "cte", &mut files);
         let corpus: Vec<(String, String)> = files.iter().filter_map(|p| Some((p.file_name().unwrap().to_string_lossy().to_string(), bdl_text(p)?))).collect();
-        drive("C18.typed", "the 68 shipped BDL texts: every window, wall, space, polygon, material, layer set, glazing, frame, window construction, rectangular shade and thermal bridge of bdl::Data against the attribute values of its own block (documented legacy defaults when an attribute is absent)", |c| {
+        drive("C18.typed", "the 68 shipped BDL texts, as shipped and with 5 whole-file rewrites of written values (envelope flag SI <-> NO, space TYPE rotated, every X / Y / Z / WIDTH / HEIGHT / SETBACK shifted, every material / glazing / frame number halved, optional attributes removed so that the legacy defaults apply): every window, wall, space, polygon, material, layer set, glazing, frame, window construction, rectangular shade and thermal bridge of bdl::Data against the attribute values of its own block", |c| {
             let (name, text) = c.of(&corpus);
-            c.note(name.clone());
+            let rewrite = c.pick(6);
+            c.note(format!("{} rewrite {}", name, rewrite));
+            let text = rewrite_values(&text, rewrite);
             let (blocks, data) = match (build_blocks(&text), Data::new(&text)) {
                 (Ok(b), Ok(d)) => (b, d),
                 _ => return,
@@ -619,6 +666,13 @@ mod n {
                             nsp += 1;
                             let poly_ok = st(b, "POLYGON").and_then(|p| polygons.get(p.as_str()).map(|pb| vertices_of(pb))).map(|v| v.len() == s.polygon.0.len() && v.iter().zip(s.polygon.0.iter()).all(|(a, p)| a.0 == p.x && a.1 == p.y)).unwrap_or(false);
                             c.check("C18.typed.space", Some(s.stype.clone()) == st(b, "TYPE") && s.x == f(b, "X").unwrap_or(0.0) && s.y == f(b, "Y").unwrap_or(0.0) && Some(s.multiplier) == f(b, "MULTIPLIER") && Some(s.floor.clone()) == b.parent && Some(s.power) == f(b, "POWER"), || format!("{}: space {} = {:?} but the block says {:?} under {:?}", name, b.name, (&s.stype, s.x, s.y, s.multiplier, &s.floor, s.power), b.attrs.0, b.parent));
+                            let inside_want = match st(b, "perteneceALaEnvolventeTermica").as_deref() {
+                                Some("SI") => true,
+                                Some(_) => false,
+                                // documented legacy default: files without the attribute count conditioned spaces as inside
+                                None => s.stype == "CONDITIONED",
+                            };
+                            c.check("C18.typed.space.envelope_flag", s.insidete == inside_want, || format!("{}: space {} (TYPE {}): inside the envelope = {} but the block says {:?}", name, b.name, s.stype, s.insidete, st(b, "perteneceALaEnvolventeTermica")));
                             c.check("C18.typed.space.polygon", poly_ok, || format!("{}: space {}: polygon {:?} differs from the vertices written in block {:?}", name, b.name, s.polygon.0, st(b, "POLYGON")));
                         } else {
                             c.check("C18.typed.space.present", false, || format!("{}: space {} is written but missing from the data", name, b.name));
@@ -675,8 +729,8 @@ mod n {
                 }
             }
             c.check("C18.typed.counts", nw == data.windows.len() && nwall <= data.walls.len() && nsp == data.spaces.len(), || format!("{}: {} window / {} space blocks but {} windows / {} spaces in the data", name, nw, nsp, data.windows.len(), data.spaces.len()));
-            c.nontrivial(name.clone());
-            c.sample(|| format!("{}: {} windows, {} walls, {} spaces, {} materials agree with their blocks", name, nw, nwall, nsp, nmat));
+            c.nontrivial(format!("{} {}", name, rewrite));
+            c.sample(|| format!("{} rewrite {}: {} windows, {} walls, {} spaces, {} materials agree with their blocks", name, rewrite, nw, nwall, nsp, nmat));
         });
     }
 
@@ -791,13 +845,70 @@ mod n {
         let n_kyg = kygs.len();
         let all: Vec<PathBuf> = kygs.into_iter().chain(tbls.into_iter()).collect();
         let num = |t: &str| -> f32 { t.trim().replace(',', ".").parse().unwrap_or(f32::NAN) };
-        drive("C18.results", "every shipped KyGananciasSolares.txt and NewBDL_O.tbl: each window / wall / thermal bridge / K / insolation factor / solar gains line and each element line against an own column-by-column reading of the file", |c| {
+        drive("C18.results", "every shipped KyGananciasSolares.txt and NewBDL_O.tbl, as shipped, with every decimal column shifted by a column-specific amount (so that no two columns hold the same value) and - KyG - in the column layout written before CTE HE 2019: each window / wall / thermal bridge / K / insolation factor / solar gains line and each element line against an own column-by-column reading of the file", |c| {
             c.check("C18.results.corpus", n_kyg >= 3 && all.len() >= 9, || format!("{} KyG, {} files", n_kyg, all.len()));
             let k = c.pick(all.len());
+            let variant = c.pick(3);
+            let distinct = variant == 1;
+            let old_layout = variant == 2;
             let path = &all[k];
-            let name = format!("{}/{}", path.parent().unwrap().file_name().unwrap().to_string_lossy(), path.file_name().unwrap().to_string_lossy());
+            if old_layout && k >= n_kyg {
+                return;
+            }
+            let name = format!("{}/{}{}", path.parent().unwrap().file_name().unwrap().to_string_lossy(), path.file_name().unwrap().to_string_lossy(), if distinct { " (columns made distinct)" } else if old_layout { " (old column layout)" } else { "" });
             c.note(name.clone());
-            let text = read_text(path);
+            let mut text = read_text(path);
+            if distinct {
+                // shipped files repeat values across columns (e.g. winter and summer factors): add (column + 1) / 8 to
+                // the j-th numeric field of every data line so that a swapped column cannot go unnoticed
+                let kyg = k < n_kyg;
+                text = text
+                    .split_inclusive('\n')
+                    .enumerate()
+                    .map(|(li, line)| {
+                        let body = line.trim_end_matches(&['\r', '\n'][..]);
+                        let eol = &line[body.len()..];
+                        let sep = if kyg { ';' } else { ' ' };
+                        if (kyg && (body.starts_with('#') || !body.contains(';'))) || (!kyg && (li < 3 || body.trim_start().starts_with('"'))) {
+                            return line.to_string();
+                        }
+                        let fields: Vec<String> = body
+                            .split(sep)
+                            .enumerate()
+                            .map(|(j, f)| {
+                                let t = f.trim();
+                                // only decimal numbers (integer codes and names stay)
+                                match t.replace(',', ".").parse::<f32>() {
+                                    Ok(x) if t.contains('.') || t.contains(',') => format!("{}{:.6}", if f.starts_with(' ') { " " } else { "" }, x + (j as f32 + 1.0) / 8.0),
+                                    _ => f.to_string(),
+                                }
+                            })
+                            .collect();
+                        format!("{}{}", fields.join(&sep.to_string()), eol)
+                    })
+                    .collect();
+            }
+            if old_layout {
+                // the layout written before CTE HE 2019: no glazing / permeability / construction columns
+                text = text
+                    .split_inclusive('\n')
+                    .map(|line| {
+                        let body = line.trim_end_matches(&['\r', '\n'][..]);
+                        let eol = &line[body.len()..];
+                        let keep = if body.starts_with("Ventana;") { 6 } else if body.starts_with("Muro;") { 5 } else if body.starts_with("PPTT;") { 4 } else { usize::MAX };
+                        let fields: Vec<&str> = body.split(';').collect();
+                        format!("{}{}", fields[..fields.len().min(keep)].join(";"), eol)
+                    })
+                    .collect();
+            }
+            let tmp = std::env::var("VERIF_TMP").map(PathBuf::from).unwrap_or_else(|_| std::env::temp_dir());
+            let tmp_path = tmp.join(format!("verif-c18-values-{}-{}.tbl", std::process::id(), k));
+            let path: &PathBuf = if distinct && k >= n_kyg {
+                std::fs::write(&tmp_path, text.chars().map(|ch| ch as u32 as u8).collect::<Vec<u8>>()).unwrap();
+                &tmp_path
+            } else {
+                path
+            };
             if k < n_kyg {
                 let d = match crate::kyg::parse(&text) {
                     Ok(d) => d,
@@ -813,12 +924,12 @@ mod n {
                         "Ventana" if v.len() >= 6 => {
                             nwin += 1;
                             let w = d.windows.get(v[1]);
-                            c.check("C18.results.kyg.window", matches!(w, Some(w) if w.a == num(v[2]) && w.u == num(v[3]) && w.orientation == v[4].replace('O', "W") && (w.ff - num(v[5]) / 100.0).abs() < 1e-6 && (v.len() <= 10 || (w.ggln == Some(num(v[6])) && w.infcoeff_100 == Some(num(v[9])) && w.cons.as_deref() == Some(v[10])))), || format!("{}: line {:?} read as {:?}", name, line, w));
+                            c.check("C18.results.kyg.window", matches!(w, Some(w) if w.a == num(v[2]) && w.u == num(v[3]) && w.orientation == v[4].replace('O', "W") && (w.ff - num(v[5]) / 100.0).abs() < 1e-6 && (if v.len() > 10 { w.ggln == Some(num(v[6])) && w.infcoeff_100 == Some(num(v[9])) && w.cons.as_deref() == Some(v[10]) } else { w.ggln.is_none() && w.infcoeff_100.is_none() && w.cons.is_none() })), || format!("{}: line {:?} read as {:?}", name, line, w));
                         }
                         "Muro" if v.len() >= 5 => {
                             nwall += 1;
                             let w = d.walls.get(v[1]);
-                            c.check("C18.results.kyg.wall", matches!(w, Some(w) if w.a == num(v[2]) && w.u == num(v[3]) && w.btrx == num(v[4]) && (v.len() <= 7 || (w.wtype.as_deref() == Some(v[5]) && w.orientation.as_deref() == Some(v[6]) && w.cons.as_deref() == Some(v[7])))), || format!("{}: line {:?} read as {:?}", name, line, w));
+                            c.check("C18.results.kyg.wall", matches!(w, Some(w) if w.a == num(v[2]) && w.u == num(v[3]) && w.btrx == num(v[4]) && (if v.len() > 7 { w.wtype.as_deref() == Some(v[5]) && w.orientation.as_deref() == Some(v[6]) && w.cons.as_deref() == Some(v[7]) } else { w.wtype.is_none() && w.orientation.is_none() && w.cons.is_none() })), || format!("{}: line {:?} read as {:?}", name, line, w));
                         }
                         "PPTT" if v.len() >= 4 => {
                             ntb += 1;
@@ -872,6 +983,7 @@ mod n {
                 c.nontrivial(name.clone());
                 c.sample(|| format!("{}: {} elements, {} spaces", name, d.elements.len(), d.spaces.len()));
             }
+            let _ = std::fs::remove_file(&tmp_path);
         });
     }
 }
